@@ -1,27 +1,11 @@
-/-! scratch: pxssh.login as the interpreter of a table extracted from its AST (T-pxssh) -/
+import PexpectModel.Generated.PxsshTable
+/-! # pxssh: login(), sync_original_prompt(), set_unique_prompt() as interpreters of the table that
+T-pxssh regenerates from pexpect/pxssh.py on every run.
+
+The server is the environment: it decides what every `expect` call answers (`Ans`) and what every
+`try_read_prompt` collects.  Every theorem quantifies over all environments, i.e. over all server
+dialogues, and over all option sets. -/
 namespace Px
-
-inductive PatName | hostkey | origPrompt | passwordRe | denied | termType | timeout | connClosed | eof
-deriving DecidableEq, Repr
-inductive What | yes | password | termType deriving DecidableEq, Repr
-inductive Verdict | pass | fail deriving DecidableEq, Repr
-
-structure Table where
-  initArr : List PatName
-  arr : List PatName
-  first : List (Nat × What)
-  failIdx : Nat
-  second : List (Nat × Verdict)
-  secondElse : Verdict
-
-/-- what T-pxssh extracts from the pinned tree -/
-def gen : Table :=
-  { initArr := [.hostkey, .origPrompt, .passwordRe, .denied, .termType, .timeout, .connClosed, .eof]
-    arr := [.hostkey, .origPrompt, .passwordRe, .denied, .termType, .timeout]
-    first := [(0, .yes), (2, .password), (4, .termType)]
-    failIdx := 7
-    second := [(0, .fail), (1, .pass), (2, .fail), (3, .fail), (4, .fail), (5, .pass), (6, .fail)]
-    secondElse := .fail }
 
 /-- result of one `self.expect(...)` call, chosen by the environment (the server dialogue) -/
 inductive Ans | idx (n : Nat) | raisedEOF | raisedTIMEOUT deriving DecidableEq, Repr
@@ -29,21 +13,41 @@ inductive Res | ok | pxsshError | eofError | timeoutError deriving DecidableEq, 
 inductive Fail | eof | timeout deriving DecidableEq, Repr
 def Fail.res : Fail → Res | .eof => .eofError | .timeout => .timeoutError
 
-/-- a send, remembered together with the index the preceding expect returned -/
-structure Sent where
-  what : What
-  afterIdx : Nat
-  callNo : Nat          -- which expect call (0 = the first, over initArr)
+/-- everything the session sends; a first-phase send remembers the index the expect just before it returned
+    and which expect call that was (0 = the one over `initArr`) -/
+inductive Sent
+  | first (w : What) (afterIdx : Nat) (callNo : Nat)
+  | enter | unsetPromptCommand | setPrompt (s : Shell)
 deriving DecidableEq, Repr
 
-/-- first phase: walk the `if i==K: sendline(X); i = expect(arr)` chain -/
+structure Opts where
+  syncOriginalPrompt : Bool
+  autoPromptReset : Bool
+deriving DecidableEq, Repr
+
+/-- the server as login() sees it -/
+structure Env where
+  first : Ans                          -- answer of the expect over session_init_regex_array
+  answers : List Ans                   -- answers of the later expect(session_regex_array) calls
+  reads : List (Option (List Nat))     -- what each try_read_prompt collects (none: EOF raised inside)
+  resetAnswers : List Ans              -- answers of expect([TIMEOUT, PROMPT]) in set_unique_prompt
+
+structure Out where
+  res : Res
+  sent : List Sent
+  closed : Bool
+  expects : Nat        -- expect calls made
+  reads : Nat          -- try_read_prompt calls made
+deriving DecidableEq, Repr
+
+/-- first phase: walk the `if i==K: sendline(X); i = expect(arr)` chain; returns the final index -/
 def firstPhase : List (Nat × What) → Nat → Nat → List Ans → List Sent → (Except Fail Nat) × List Sent × List Ans × Nat
   | [], i, n, ans, sent => (.ok i, sent, ans, n)
   | (k, wh) :: rest, i, n, ans, sent =>
     if i = k then
-      let sent := sent ++ [⟨wh, i, n⟩]
+      let sent := sent ++ [.first wh i n]
       match ans with
-      | [] => (.error .timeout, sent, [], n)           -- dialogue exhausted: treat as timeout raise
+      | [] => (.error .timeout, sent, [], n + 1)       -- environment exhausted: treated like a raised TIMEOUT
       | .idx j :: ans' => firstPhase rest j (n + 1) ans' sent
       | .raisedEOF :: ans' => (.error .eof, sent, ans', n + 1)
       | .raisedTIMEOUT :: ans' => (.error .timeout, sent, ans', n + 1)
@@ -54,36 +58,98 @@ def verdict (t : Table) (i : Nat) : Verdict :=
   | some p => p.2
   | none => t.secondElse
 
-structure Opts where
-  syncOriginalPrompt : Bool
-  autoPromptReset : Bool
+/-- pxssh.levenshtein_distance: the rolling-row algorithm of the source -/
+def levRow (ai : Nat) (b : List Nat) (prev : List Nat) (i : Nat) : List Nat :=
+  -- current[0] = i; current[j] = min(previous[j]+1, current[j-1]+1, previous[j-1] + (a[j-1] != b[i-1]))
+  let rec go : List Nat → List Nat → Nat → Nat → List Nat
+    | [], _, _, _ => []
+    | aj :: as, pj :: ps, pjm1, cjm1 =>
+        let cj := min (min (pj + 1) (cjm1 + 1)) (pjm1 + (if aj = ai then 0 else 1))
+        cj :: go as ps pj cj
+    | _ :: _, [], _, _ => []
+  i :: go b (prev.drop 1) (prev.headD 0) i
 
-/-- `syncOk`, `resetOk` are what sync_original_prompt() / set_unique_prompt() return in this dialogue -/
-def login (t : Table) (o : Opts) (first : Nat) (ans : List Ans) (syncOk resetOk : Bool) : Res × List Sent :=
-  match firstPhase t.first first 0 ans [] with
-  | (.error e, sent, _, _) => (e.res, sent)
-  | (.ok i, sent, _, _) =>
-    if i = t.failIdx then (.pxsshError, sent)
-    else match verdict t i with
-      | .fail => (.pxsshError, sent)
-      | .pass =>
-        if o.syncOriginalPrompt && !syncOk then (.pxsshError, sent)
-        else if o.autoPromptReset && !resetOk then (.pxsshError, sent)
-        else (.ok, sent)
+def lev (a b : List Nat) : Nat :=
+  let (a, b) := if a.length > b.length then (b, a) else (a, b)
+  let init := List.range (a.length + 1)
+  let rec rows : List Nat → List Nat → Nat → List Nat
+    | [], cur, _ => cur
+    | bi :: bs, cur, i => rows bs (levRow bi a cur i) (i + 1)
+  ((rows b init 1).getLast?).getD 0
 
-/-- table facts, decided on the generated data -/
-theorem gen_password_once : (gen.first.filter (fun p => p.2 = .password)).length = 1 := by decide
-theorem gen_password_idx : ∀ p ∈ gen.first, p.2 = .password → gen.initArr[p.1]? = some .passwordRe ∧ gen.arr[p.1]? = some .passwordRe := by decide
-theorem gen_yes_idx : ∀ p ∈ gen.first, p.2 = .yes → gen.initArr[p.1]? = some .hostkey ∧ gen.arr[p.1]? = some .hostkey := by decide
-theorem gen_pass_only : ∀ p ∈ gen.second, p.2 = .pass → gen.arr[p.1]? = some .origPrompt ∨ gen.arr[p.1]? = some .timeout := by decide
+/-- the final test of sync_original_prompt on the last two responses -/
+def similar (a b : List Nat) : Bool := a.length != 0 && decide (5 * lev a b < 2 * a.length)
 
-/-- every send in the first phase answers exactly the index its table entry names, and the sends are a
-    sub-sequence of the table in order (so each `What` is sent at most as often as it is listed) -/
+/-- sync_original_prompt: four Enters, four reads; the first two responses are discarded -/
+def syncPrompt (reads : List (Option (List Nat))) (sent : List Sent) : (Except Fail Bool) × List Sent × Nat :=
+  match reads with
+  | some _ :: some _ :: some a :: some b :: _ => (.ok (similar a b), sent ++ [.enter, .enter, .enter, .enter], 4)
+  | some _ :: some _ :: some _ :: _ => (.error .eof, sent ++ [.enter, .enter, .enter, .enter], 4)
+  | some _ :: some _ :: _ => (.error .eof, sent ++ [.enter, .enter, .enter], 3)
+  | some _ :: _ => (.error .eof, sent ++ [.enter, .enter], 2)
+  | _ => (.error .eof, sent ++ [.enter], 1)
+
+/-- set_unique_prompt: `expect([TIMEOUT, PROMPT])` answers 0 for TIMEOUT, 1 for the prompt -/
+def ladder : List Shell → List Ans → List Sent → Nat → (Except Fail Bool) × List Sent × Nat
+  | [], _, sent, n => (.ok false, sent, n)
+  | s :: rest, ans, sent, n =>
+    let sent := sent ++ [.setPrompt s]
+    match ans with
+    | [] => (.error .timeout, sent, n + 1)
+    | .idx 0 :: ans' => ladder rest ans' sent (n + 1)
+    | .idx _ :: _ => (.ok true, sent, n + 1)
+    | .raisedEOF :: _ => (.error .eof, sent, n + 1)
+    | .raisedTIMEOUT :: _ => (.error .timeout, sent, n + 1)
+
+def setUniquePrompt (t : Table) (ans : List Ans) (sent : List Sent) : (Except Fail Bool) × List Sent × Nat :=
+  ladder t.ladder ans (sent ++ [.unsetPromptCommand]) 0
+
+/-- the guarded checks before `return True`, in table order -/
+def postChecks (t : Table) (o : Opts) (e : Env) : List Post → List Sent → Nat → Nat → Out
+  | [], sent, ne, nr => ⟨.ok, sent, false, ne, nr⟩
+  | .sync :: rest, sent, ne, nr =>
+    if o.syncOriginalPrompt then
+      match syncPrompt e.reads sent with
+      | (.error f, sent, k) => ⟨f.res, sent, false, ne, nr + k⟩
+      | (.ok false, sent, k) => ⟨.pxsshError, sent, true, ne, nr + k⟩
+      | (.ok true, sent, k) => postChecks t o e rest sent ne (nr + k)
+    else postChecks t o e rest sent ne nr
+  | .reset :: rest, sent, ne, nr =>
+    if o.autoPromptReset then
+      match setUniquePrompt t e.resetAnswers sent with
+      | (.error f, sent, k) => ⟨f.res, sent, false, ne + k, nr⟩
+      | (.ok false, sent, k) => ⟨.pxsshError, sent, true, ne + k, nr⟩
+      | (.ok true, sent, k) => postChecks t o e rest sent (ne + k) nr
+    else postChecks t o e rest sent ne nr
+
+def login (t : Table) (o : Opts) (e : Env) : Out :=
+  match e.first with
+  | .raisedEOF => ⟨.eofError, [], false, 1, 0⟩
+  | .raisedTIMEOUT => ⟨.timeoutError, [], false, 1, 0⟩
+  | .idx i0 =>
+    match firstPhase t.first i0 0 e.answers [] with
+    | (.error f, sent, _, n) => ⟨f.res, sent, false, n + 1, 0⟩
+    | (.ok i, sent, _, n) =>
+      if i = t.failIdx then ⟨.pxsshError, sent, t.failCloses, n + 1, 0⟩
+      else match verdict t i with
+        | .closeRaise => ⟨.pxsshError, sent, true, n + 1, 0⟩
+        | .raiseOnly => ⟨.pxsshError, sent, false, n + 1, 0⟩
+        | .pass => postChecks t o e t.post sent (n + 1) 0
+
+/-! ## theorems, generic in the table -/
+
+def Sent.isFirst : Sent → Option (Nat × What)
+  | .first w i _ => some (i, w)
+  | _ => none
+
+/-- every send of the first phase answers exactly the index its table entry names, and the sends are a
+    sub-sequence of the table in order (so each item is sent at most as often as the table lists it) -/
 theorem firstPhase_sent (tbl : List (Nat × What)) (i n : Nat) (ans : List Ans) (sent0 : List Sent) :
     ∃ extra, (firstPhase tbl i n ans sent0).2.1 = sent0 ++ extra ∧
-      (extra.map (fun s => (s.afterIdx, s.what))).Sublist tbl := by
+      (extra.filterMap Sent.isFirst).Sublist tbl ∧ extra.filterMap Sent.isFirst = extra.map (fun s => s.isFirst.getD (0, .yes)) ∧
+      (∀ s ∈ extra, ∃ w i c, s = .first w i c) := by
   induction tbl generalizing i n ans sent0 with
-  | nil => exact ⟨[], by simp [firstPhase], by simp⟩
+  | nil => exact ⟨[], by simp [firstPhase], by simp, by simp, by simp⟩
   | cons kw rest ih =>
     obtain ⟨k, wh⟩ := kw
     unfold firstPhase
@@ -91,83 +157,234 @@ theorem firstPhase_sent (tbl : List (Nat × What)) (i n : Nat) (ans : List Ans) 
     · subst hik
       simp only [if_true]
       cases ans with
-      | nil => exact ⟨[⟨wh, i, n⟩], by simp, by simp⟩
+      | nil => exact ⟨[.first wh i n], by simp, by simp [Sent.isFirst], by simp [Sent.isFirst], by simp⟩
       | cons a ans' =>
         cases a with
         | idx j =>
-          obtain ⟨extra, h1, h2⟩ := ih j (n + 1) ans' (sent0 ++ [⟨wh, i, n⟩])
-          refine ⟨⟨wh, i, n⟩ :: extra, by simp [h1], ?_⟩
-          simp only [List.map_cons]
-          exact List.Sublist.cons_cons _ h2
-        | raisedEOF => exact ⟨[⟨wh, i, n⟩], by simp, by simp⟩
-        | raisedTIMEOUT => exact ⟨[⟨wh, i, n⟩], by simp, by simp⟩
+          obtain ⟨extra, h1, h2, h3, h4⟩ := ih j (n + 1) ans' (sent0 ++ [.first wh i n])
+          refine ⟨.first wh i n :: extra, by simp [h1], ?_, ?_, ?_⟩
+          · simp only [List.filterMap_cons, Sent.isFirst]; exact List.Sublist.cons_cons _ h2
+          · simp only [List.filterMap_cons, Sent.isFirst, List.map_cons, Option.getD_some, h3]
+          · intro s hs
+            rcases List.mem_cons.mp hs with rfl | hs
+            · exact ⟨_, _, _, rfl⟩
+            · exact h4 s hs
+        | raisedEOF => exact ⟨[.first wh i n], by simp, by simp [Sent.isFirst], by simp [Sent.isFirst], by simp⟩
+        | raisedTIMEOUT => exact ⟨[.first wh i n], by simp, by simp [Sent.isFirst], by simp [Sent.isFirst], by simp⟩
     · simp only [hik, if_false]
-      obtain ⟨extra, h1, h2⟩ := ih i n ans sent0
-      exact ⟨extra, h1, List.Sublist.cons _ h2⟩
+      obtain ⟨extra, h1, h2, h3, h4⟩ := ih i n ans sent0
+      exact ⟨extra, h1, List.Sublist.cons _ h2, h3, h4⟩
 
-/-- C17: the password is sent at most once, and only right after the password/passphrase pattern matched;
-    'yes' only right after the host-key question matched -/
-theorem login_sends (o : Opts) (first : Nat) (ans : List Ans) (syncOk resetOk : Bool) :
-    let sent := (login gen o first ans syncOk resetOk).2
-    (sent.filter (fun s => s.what = .password)).length ≤ 1 ∧
-    (∀ s ∈ sent, s.what = .password → s.afterIdx = 2) ∧
-    (∀ s ∈ sent, s.what = .yes → s.afterIdx = 0) := by
-  intro sent
-  obtain ⟨extra, h1, h2⟩ := firstPhase_sent gen.first first 0 ans []
-  have hsent : sent = extra := by
-    simp only [sent, login]
-    rcases hfp : firstPhase gen.first first 0 ans [] with ⟨r, s, a, m⟩
-    rw [hfp] at h1
-    simp only [List.nil_append] at h1
-    cases r with
-    | error e => simp [h1]
-    | ok i => simp only; split <;> (try split) <;> (try split) <;> (try split) <;> simp [h1]
-  rw [hsent]
-  have hsub : (extra.map (fun s => (s.afterIdx, s.what))).Sublist [(0, What.yes), (2, .password), (4, .termType)] := h2
-  have hmem : ∀ s ∈ extra, (s.afterIdx, s.what) ∈ [(0, What.yes), (2, What.password), (4, What.termType)] :=
-    fun s hs => hsub.subset (List.mem_map.mpr ⟨s, hs, rfl⟩)
-  refine ⟨?_, ?_, ?_⟩
-  · have hl := (hsub.filter (fun p => p.2 = What.password)).length_le
-    have : ((extra.map (fun s => (s.afterIdx, s.what))).filter (fun p => p.2 = What.password)).length
-        = (extra.filter (fun s => s.what = .password)).length := by
-      rw [List.filter_map]; simp [Function.comp_def]
-    rw [this] at hl
-    exact hl
-  · intro s hs hw
-    have := hmem s hs
-    simp only [List.mem_cons, Prod.mk.injEq, List.mem_nil_iff, or_false] at this
-    rcases this with ⟨h, h'⟩ | ⟨h, h'⟩ | ⟨h, h'⟩ <;> simp_all
-  · intro s hs hw
-    have := hmem s hs
-    simp only [List.mem_cons, Prod.mk.injEq, List.mem_nil_iff, or_false] at this
-    rcases this with ⟨h, h'⟩ | ⟨h, h'⟩ | ⟨h, h'⟩ <;> simp_all
+end Px
 
-/-- the full-strength claim "True only if a shell prompt was reached" is FALSE: a silent server (every
-    expect times out, index 5) with both checks switched off logs in "successfully" -/
-example : (login gen ⟨false, false⟩ 5 [] false false).1 = .ok := by decide
+namespace Px
 
-/-- the partial theorem: with at least one check enabled, success implies that check succeeded -/
-theorem login_ok_partial (o : Opts) (first : Nat) (ans : List Ans) (syncOk resetOk : Bool)
-    (h : (login gen o first ans syncOk resetOk).1 = .ok) :
-    (o.syncOriginalPrompt = true → syncOk = true) ∧ (o.autoPromptReset = true → resetOk = true) := by
-  unfold login at h
-  rcases hfp : firstPhase gen.first first 0 ans [] with ⟨r, s, a, m⟩
-  rw [hfp] at h
-  cases r with
-  | error e => cases e <;> simp [Fail.res] at h
-  | ok i =>
-    simp only at h
+theorem syncPrompt_sent (reads : List (Option (List Nat))) (sent : List Sent) :
+    ∃ extra, (syncPrompt reads sent).2.1 = sent ++ extra ∧ (∀ s ∈ extra, s = .enter) ∧ (syncPrompt reads sent).2.2 ≤ 4 ∧
+      (syncPrompt reads sent).1 = (syncPrompt reads []).1 := by
+  unfold syncPrompt
+  split <;> exact ⟨_, rfl, by simp, by simp, rfl⟩
+
+theorem ladder_sent (l : List Shell) (ans : List Ans) (sent : List Sent) (n : Nat) :
+    ∃ extra, (ladder l ans sent n).2.1 = sent ++ extra ∧ (∀ s ∈ extra, ∃ shl, s = .setPrompt shl) ∧
+      (ladder l ans sent n).2.2 ≤ n + l.length ∧ (ladder l ans sent n).1 = (ladder l ans [] 0).1 := by
+  induction l generalizing ans sent n with
+  | nil => exact ⟨[], by simp [ladder], by simp, by simp [ladder], rfl⟩
+  | cons s rest ih =>
+    unfold ladder
+    cases ans with
+    | nil => exact ⟨[.setPrompt s], rfl, by simp, by simp, rfl⟩
+    | cons a ans' =>
+      cases a with
+      | idx j =>
+        cases j with
+        | zero =>
+          obtain ⟨extra, h1, h2, h3, h4⟩ := ih ans' (sent ++ [.setPrompt s]) (n + 1)
+          obtain ⟨_, _, _, _, h4'⟩ := ih ans' ([] ++ [.setPrompt s]) (0 + 1)
+          refine ⟨.setPrompt s :: extra, by simp [h1], ?_, by simp only [List.length_cons]; omega, by simp only []; rw [h4, h4']⟩
+          intro x hx
+          rcases List.mem_cons.mp hx with rfl | hx
+          · exact ⟨s, rfl⟩
+          · exact h2 x hx
+        | succ j => exact ⟨[.setPrompt s], rfl, by simp, by simp, rfl⟩
+      | raisedEOF => exact ⟨[.setPrompt s], rfl, by simp, by simp, rfl⟩
+      | raisedTIMEOUT => exact ⟨[.setPrompt s], rfl, by simp, by simp, rfl⟩
+
+/-- what the two checks answer, independently of what was sent before -/
+def syncOk (reads : List (Option (List Nat))) : Bool := match (syncPrompt reads []).1 with | .ok true => true | _ => false
+def resetOk (t : Table) (ans : List Ans) : Bool := match (ladder t.ladder ans [] 0).1 with | .ok true => true | _ => false
+
+theorem syncOk_iff (reads : List (Option (List Nat))) :
+    syncOk reads = true ↔ ∃ x y a b rest, reads = some x :: some y :: some a :: some b :: rest ∧ a ≠ [] ∧ 5 * lev a b < 2 * a.length := by
+  unfold syncOk syncPrompt
+  constructor
+  · intro h
     split at h
+    · rename_i heq
+      split at heq
+      · rename_i x y a b rest
+        simp only [Except.ok.injEq] at heq
+        refine ⟨_, _, a, b, rest, rfl, ?_⟩
+        simp only [similar, Bool.and_eq_true, bne_iff_ne, ne_eq, decide_eq_true_eq, List.length_eq_zero_iff] at heq
+        exact heq
+      all_goals simp at heq
     · simp at h
-    · split at h
-      · simp at h
-      · split at h
-        · simp at h
-        · split at h
-          · simp at h
-          · rename_i h1 h2
-            constructor
-            · intro ho; cases syncOk <;> simp_all
-            · intro ho; cases resetOk <;> simp_all
+  · rintro ⟨x, y, a, b, rest, rfl, ha, hl⟩
+    have hne : (a.length != 0) = true := by simp [ha]
+    simp [similar, hne, hl]
+
+theorem ladder_ok_true (l : List Shell) (ans : List Ans) :
+    (ladder l ans [] 0).1 = .ok true ↔
+      ∃ k j, k < l.length ∧ ans[k]? = some (.idx (j + 1)) ∧ ∀ m, m < k → ans[m]? = some (.idx 0) := by
+  suffices H : ∀ (sent : List Sent) (n : Nat), (ladder l ans sent n).1 = .ok true ↔
+      ∃ k j, k < l.length ∧ ans[k]? = some (.idx (j + 1)) ∧ ∀ m, m < k → ans[m]? = some (.idx 0) from H [] 0
+  induction l generalizing ans with
+  | nil => intro sent n; simp [ladder]
+  | cons s rest ih =>
+    intro sent n
+    unfold ladder
+    cases ans with
+    | nil => simp
+    | cons a ans' =>
+      cases a with
+      | idx j =>
+        cases j with
+        | zero =>
+          simp only []
+          rw [ih ans' _ _]
+          constructor
+          · rintro ⟨k, j, hk, hj, hm⟩
+            refine ⟨k + 1, j, by simp; omega, by simpa using hj, ?_⟩
+            intro m hmk
+            cases m with
+            | zero => rfl
+            | succ m => simpa using hm m (by omega)
+          · rintro ⟨k, j, hk, hj, hm⟩
+            cases k with
+            | zero => simp at hj
+            | succ k =>
+              refine ⟨k, j, by simp at hk; omega, by simpa using hj, ?_⟩
+              intro m hmk
+              simpa using hm (m + 1) (by omega)
+        | succ j =>
+          simp only [true_iff]
+          exact ⟨0, j, by simp, rfl, by intro m hm; omega⟩
+      | raisedEOF =>
+        simp only [reduceCtorEq, false_iff, not_exists, not_and]
+        intro k j hk hj hm
+        cases k with
+        | zero => simp at hj
+        | succ k => have := hm 0 (by omega); simp at this
+      | raisedTIMEOUT =>
+        simp only [reduceCtorEq, false_iff, not_exists, not_and]
+        intro k j hk hj hm
+        cases k with
+        | zero => simp at hj
+        | succ k => have := hm 0 (by omega); simp at this
+
+theorem verdict_mem (t : Table) (i : Nat) : (∃ k, (k, verdict t i) ∈ t.second) ∨ verdict t i = t.secondElse := by
+  unfold verdict
+  split
+  · rename_i p hp
+    exact Or.inl ⟨p.1, List.mem_of_find?_eq_some hp⟩
+  · exact Or.inr rfl
+
+end Px
+
+namespace Px
+
+/-- case analysis of `login` (one hypothesis per return / raise site of the source) -/
+theorem login_cases (t : Table) (o : Opts) (e : Env) (P : Out → Prop)
+    (h1 : e.first = .raisedEOF → P ⟨.eofError, [], false, 1, 0⟩)
+    (h2 : e.first = .raisedTIMEOUT → P ⟨.timeoutError, [], false, 1, 0⟩)
+    (h3 : ∀ i0 f sent a n, e.first = .idx i0 → firstPhase t.first i0 0 e.answers [] = (.error f, sent, a, n) →
+        P ⟨f.res, sent, false, n + 1, 0⟩)
+    (h4 : ∀ i0 i sent a n, e.first = .idx i0 → firstPhase t.first i0 0 e.answers [] = (.ok i, sent, a, n) → i = t.failIdx →
+        P ⟨.pxsshError, sent, t.failCloses, n + 1, 0⟩)
+    (h5 : ∀ i0 i sent a n, e.first = .idx i0 → firstPhase t.first i0 0 e.answers [] = (.ok i, sent, a, n) → i ≠ t.failIdx →
+        verdict t i = .closeRaise → P ⟨.pxsshError, sent, true, n + 1, 0⟩)
+    (h6 : ∀ i0 i sent a n, e.first = .idx i0 → firstPhase t.first i0 0 e.answers [] = (.ok i, sent, a, n) → i ≠ t.failIdx →
+        verdict t i = .raiseOnly → P ⟨.pxsshError, sent, false, n + 1, 0⟩)
+    (h7 : ∀ i0 i sent a n, e.first = .idx i0 → firstPhase t.first i0 0 e.answers [] = (.ok i, sent, a, n) → i ≠ t.failIdx →
+        verdict t i = .pass → P (postChecks t o e t.post sent (n + 1) 0)) :
+    P (login t o e) := by
+  unfold login
+  cases hf : e.first with
+  | raisedEOF => exact h1 hf
+  | raisedTIMEOUT => exact h2 hf
+  | idx i0 =>
+    simp only []
+    rcases hfp : firstPhase t.first i0 0 e.answers [] with ⟨r, sent, a, n⟩
+    cases r with
+    | error f => exact h3 i0 f sent a n hf hfp
+    | ok i =>
+      simp only []
+      by_cases hi : i = t.failIdx
+      · rw [if_pos hi]; exact h4 i0 i sent a n hf hfp hi
+      · rw [if_neg hi]
+        cases hv : verdict t i with
+        | closeRaise => exact h5 i0 i sent a n hf hfp hi hv
+        | raiseOnly => exact h6 i0 i sent a n hf hfp hi hv
+        | pass => exact h7 i0 i sent a n hf hfp hi hv
+
+/-- the reset check alone -/
+theorem reset_cases (t : Table) (o : Opts) (e : Env) (sent : List Sent) (ne nr : Nat) (P : Out → Prop)
+    (h0 : o.autoPromptReset = false → P ⟨.ok, sent, false, ne, nr⟩)
+    (h1 : ∀ f s k, o.autoPromptReset = true → setUniquePrompt t e.resetAnswers sent = (.error f, s, k) → P ⟨f.res, s, false, ne + k, nr⟩)
+    (h2 : ∀ s k, o.autoPromptReset = true → setUniquePrompt t e.resetAnswers sent = (.ok false, s, k) → P ⟨.pxsshError, s, true, ne + k, nr⟩)
+    (h3 : ∀ s k, o.autoPromptReset = true → setUniquePrompt t e.resetAnswers sent = (.ok true, s, k) → P ⟨.ok, s, false, ne + k, nr⟩) :
+    P (postChecks t o e [.reset] sent ne nr) := by
+  unfold postChecks
+  cases ho : o.autoPromptReset with
+  | false => simp only [Bool.false_eq_true, if_false, postChecks]; exact h0 ho
+  | true =>
+    simp only [if_true]
+    rcases hs : setUniquePrompt t e.resetAnswers sent with ⟨r, s, k⟩
+    cases r with
+    | error f => exact h1 f s k ho hs
+    | ok b =>
+      cases b with
+      | false => exact h2 s k ho hs
+      | true => simp only [postChecks]; exact h3 s k ho hs
+
+/-- the two checks in the order sync, reset -/
+theorem post_cases (t : Table) (o : Opts) (e : Env) (sent : List Sent) (ne nr : Nat) (P : Out → Prop)
+    (h1 : ∀ f s k, o.syncOriginalPrompt = true → syncPrompt e.reads sent = (.error f, s, k) → P ⟨f.res, s, false, ne, nr + k⟩)
+    (h2 : ∀ s k, o.syncOriginalPrompt = true → syncPrompt e.reads sent = (.ok false, s, k) → P ⟨.pxsshError, s, true, ne, nr + k⟩)
+    (h3 : ∀ s k, o.syncOriginalPrompt = true → syncPrompt e.reads sent = (.ok true, s, k) → P (postChecks t o e [.reset] s ne (nr + k)))
+    (h4 : o.syncOriginalPrompt = false → P (postChecks t o e [.reset] sent ne nr)) :
+    P (postChecks t o e [.sync, .reset] sent ne nr) := by
+  unfold postChecks
+  cases ho : o.syncOriginalPrompt with
+  | false => simp only [Bool.false_eq_true, if_false]; exact h4 ho
+  | true =>
+    simp only [if_true]
+    rcases hs : syncPrompt e.reads sent with ⟨r, s, k⟩
+    cases r with
+    | error f => exact h1 f s k ho hs
+    | ok b =>
+      cases b with
+      | false => exact h2 s k ho hs
+      | true => exact h3 s k ho hs
+
+theorem firstPhase_calls (tbl : List (Nat × What)) (i n : Nat) (ans : List Ans) (s : List Sent) :
+    (firstPhase tbl i n ans s).2.2.2 ≤ n + tbl.length := by
+  induction tbl generalizing i n ans s with
+  | nil => simp [firstPhase]
+  | cons kw rest ih =>
+    obtain ⟨k, wh⟩ := kw
+    unfold firstPhase
+    by_cases hik : i = k
+    · simp only [hik, if_true]
+      cases ans with
+      | nil => simp
+      | cons a ans' =>
+        cases a with
+        | idx j => have := ih j (n + 1) ans' (s ++ [.first wh k n]); simp only [List.length_cons]; omega
+        | raisedEOF => simp
+        | raisedTIMEOUT => simp
+    · simp only [hik, if_false]
+      have := ih i n ans s
+      simp only [List.length_cons]; omega
 
 end Px
